@@ -9,7 +9,7 @@ func runC06(c *Ctx) int {
 	if c.Replay != "" {
 		return replayExplorer(c, mon)
 	}
-	cases := explorerCases(c.Seed+50, c.Pick(5, 6), c.Pick(200, 12000), 30, c.Pick(120, 200))
+	cases := explorerCases(c.Seed+50, c.Pick(5, 6), c.Pick(200, 3000), 30, c.Pick(120, 200))
 	agg := c.runExplorer(cases, mon, c.Pick(60, 200), func(kind string) bool {
 		// the write monitor's verdicts, crashes and failed-commit anomalies; API/model mismatches belong to C04
 		return strings.HasPrefix(kind, "write:") || strings.HasPrefix(kind, "fault:") || kind == "panic"
